@@ -6,8 +6,10 @@ import (
 	"math/rand"
 	"os"
 	"sort"
+	"strconv"
 	"strings"
 	"sync"
+	"unicode"
 
 	"golang.org/x/mod/modfile"
 	"golang.org/x/mod/module"
@@ -86,10 +88,25 @@ type mfState struct {
 	Use     []mfItem `json:"use"`
 }
 
+// renderQuote is the renderer's own quoting (not the package's AutoQuote, which is code under test): a double-quoted
+// Go string whenever the bare text would not be one identifier token of the go.mod grammar.
+func renderQuote(s string) string {
+	need := s == "" || strings.Contains(s, "//") || strings.Contains(s, "/*")
+	for _, r := range s {
+		if r <= ' ' || r == '"' || r == '\'' || r == '`' || r == '(' || r == ')' || r == '[' || r == ']' || r == '{' || r == '}' || r == ',' || r == 0x7f || !unicode.IsPrint(r) {
+			need = true
+		}
+	}
+	if need {
+		return strconv.Quote(s)
+	}
+	return s
+}
+
 func itemArgs(verb string, it mfItem) string {
 	switch verb {
 	case "module", "go", "toolchain":
-		return modfile.AutoQuote(it.V)
+		return renderQuote(it.V)
 	case "require", "exclude":
 		return it.P + " " + it.V
 	case "replace":
@@ -97,7 +114,7 @@ func itemArgs(verb string, it mfItem) string {
 		if it.Ov != "" {
 			s += " " + it.Ov
 		}
-		s += " => " + modfile.AutoQuote(it.Np)
+		s += " => " + renderQuote(it.Np)
 		if it.Nv != "" {
 			s += " " + it.Nv
 		}
@@ -108,7 +125,7 @@ func itemArgs(verb string, it mfItem) string {
 		}
 		return "[" + it.Lo + ", " + it.Hi + "]"
 	case "tool", "use":
-		return modfile.AutoQuote(it.P)
+		return renderQuote(it.P)
 	case "godebug":
 		return it.K + "=" + it.V
 	}
